@@ -152,7 +152,7 @@ def _push(ex, s, args, kwargs, node):
 @meth("Solver", "pop", tb="TB-solver")
 def _pop(ex, s, args, kwargs, node):
     o = ex.st.obj(s.ref)
-    if not o["pushed"]:
+    if not o["pushed"] or o["pushed"][-1] is None:
         # popping below what this function pushed: only allowed on an empty-base solver? never
         ex.oblige("noraise.pop", node, z3.BoolVal(False), "pop on a solver whose stack is not known to be non-empty")
         raise PathEnd()
@@ -305,3 +305,37 @@ def _recget(ex, r, args, kwargs, node):
 @fn("time.perf_counter_ns", "time.perf_counter", tb="TB-py")
 def _perf(ex, args, kwargs, node):
     return VFloat()
+
+
+# ---------------------------------------------------------------------------
+# repository classes that are plain records (constructors modelled directly;
+# their __init__ only stores the arguments)
+# ---------------------------------------------------------------------------
+@fn("inference.conditional:Conditional", "inference.conditional_z3:Conditional_z3", tb="TB-py")
+def _mk_conditional(ex, args, kwargs, node):
+    names = ["consequence", "antecedence", "textRepresentation", "weak"]
+    b = dict(zip(names, args))
+    b.update(kwargs)
+    (cons, ant) = _forms(ex, [b["consequence"], b["antecedence"]])
+    return VCnd(L.mk_cnd(cons.t, ant.t))
+
+
+@fn("inference.belief_base:BeliefBase", tb="TB-py")
+def _mk_belief_base(ex, args, kwargs, node):
+    names = ["signature", "conditionals", "name"]
+    b = dict(zip(names, args))
+    b.update(kwargs)
+    d = b["conditionals"]
+    if not isinstance(d, VDict):
+        raise Unsupported("BeliefBase(conditionals=...) must be a dict")
+    ex.mark_escaped(d)
+    ref = ex.st.alloc({"kind": "obj", "cls": "BeliefBase", "fields": {"signature": b["signature"], "conditionals": d, "name": b["name"]}})
+    from contracts.c_consistency_sat import BeliefBaseT
+
+    return VRef(ref, BeliefBaseT)
+
+
+@fn("inference.deadline:Deadline.from_duration", tb="TB-py")
+def _deadline(ex, args, kwargs, node):
+    ref = ex.st.alloc({"kind": "obj", "cls": "Deadline", "fields": {}})
+    return VRef(ref, TObj("Deadline", {}))
